@@ -130,3 +130,20 @@ func ReadPath(fileRoot string, filePath, fileName []byte) (fullPath string, err 
 	}
 	return fullPath, nil
 }
+
+// ReadTargetPath resolves the path of the file or folder that a request operates on.  Unlike ReadPath it refuses a
+// name/path combination that resolves to the file root itself (an empty name, ".", ".." or "/" with an empty path):
+// the root is not an item inside the root, and the side files derived from its name (info fork, resource fork,
+// partial upload) would be looked up, written or removed in the root's parent directory.
+func ReadTargetPath(fileRoot string, filePath, fileName []byte) (fullPath string, err error) {
+	fullPath, err = ReadPath(fileRoot, filePath, fileName)
+	if err != nil {
+		return "", err
+	}
+
+	if fullPath == filepath.Clean(fileRoot) {
+		return "", errors.New("the file root is not a valid target")
+	}
+
+	return fullPath, nil
+}
